@@ -23,7 +23,7 @@ import (
 const prop = "C13"
 
 var machine = pbt.Part[subrig.History]{
-	Name: "machine", Quick: 300000, Thorough: 4000000,
+	Name: "machine", Quick: 240000, Thorough: 4000000,
 	Gen:   func(t *rapid.T) subrig.History { return subrig.Gen(t, subrig.BiasC13, pbt.IsKnown) },
 	Check: func(h subrig.History, o *pbt.Rec) pbt.Verdict { return subrig.Check(prop, h, o) },
 }
